@@ -104,7 +104,7 @@ func c04Main(args []string) error {
 		lines := genHistory(cr, cfg, o)
 		if i%10 == 3 && *sched == 0 && !*backups && !*surgery && !cfg.selfmoves {
 			// one history in ten is a MoveBucket scenario (cached instances, stale headers, frees made below a moved bucket)
-			lines = genMoveScenario(cr, o, (i/10)%3)
+			lines = genMoveScenario(cr, o, int(cr.next()%4))
 		}
 		if *sched > 0 {
 			// C13: the same history under different option schedules; options are re-drawn at every open,
